@@ -39,6 +39,9 @@ void vf_unprotect_all(void);
 void vf_inject_arm(void (*fn)(void), int k);
 int vf_inject_pending(void);
 void vf_inject_disarm(void);
+// another thread acts while this one is blocked: a blocking atomic wait that would never end first runs fn() once (natively: a helper thread runs it 30 ms later)
+void vf_wait_arm(void (*fn)(void));
+void vf_wait_done(void);
 }
 #define VF_ASSERT(c, msg) __CPROVER_assert(!!(c), msg)
 #define VF_ASSUME(c) __CPROVER_assume(!!(c))
